@@ -581,6 +581,14 @@ func (c *Ctx) helperPrecondition(fn *ssa.Function, line int) (ok bool, why strin
 			if !isParam {
 				return false, "the access is not on a parameter"
 			}
+			// p[i] with i running below len(q) for another parameter q: needs len(p) ≥ len(q)
+			if index && len(parts) == 1 {
+				if _, isConst := intConst(parts[0]); !isConst {
+					if q := c.boundingParam(fn, b, parts[0]); q != nil && q != p {
+						return c.lenRelationAtCalls(fn, p, q)
+					}
+				}
+			}
 			if param != nil && param != p {
 				return false, "accesses on several parameters share the line"
 			}
@@ -658,4 +666,95 @@ func (c *Ctx) helperPrecondition(fn *ssa.Function, line int) (ok bool, why strin
 		return false, "no call of the helper was found on any path"
 	}
 	return true, fmt.Sprintf("the access needs len ≥ %d of its parameter; every one of the %d path visits of a call has established that by comparison before the call", need, sites)
+}
+
+// boundingParam: on every path of fn to block b, the index idx is known to be
+// below len(q) for one and the same parameter q.
+func (c *Ctx) boundingParam(fn *ssa.Function, b *ssa.BasicBlock, idx ssa.Value) *ssa.Parameter {
+	var q *ssa.Parameter
+	seen := false
+	for _, p := range c.Paths("PAN-1", fn) {
+		for j, pb := range p.Blocks {
+			if pb != b {
+				continue
+			}
+			seen = true
+			var found *ssa.Parameter
+			for _, cm := range assumed(p, 0, p.BlockEv[j]) {
+				for _, k := range []cmp{cm, cm.swapped()} {
+					if k.Op != token.LSS || !sameValue(k.X, idx) {
+						continue
+					}
+					if arg, isLen := builtinCall(k.Y, "len"); isLen {
+						if pr, ok := arg.(*ssa.Parameter); ok {
+							found = pr
+						}
+					}
+				}
+			}
+			if found == nil || q != nil && q != found {
+				return nil
+			}
+			q = found
+		}
+	}
+	if !seen {
+		return nil
+	}
+	return q
+}
+
+// lenRelationAtCalls: every call of fn has established len(arg p) ≥ len(arg q).
+func (c *Ctx) lenRelationAtCalls(fn *ssa.Function, p, q *ssa.Parameter) (bool, string) {
+	pi, qi := -1, -1
+	for i, x := range fn.Params {
+		if x == p {
+			pi = i
+		}
+		if x == q {
+			qi = i
+		}
+	}
+	sites := 0
+	for _, g := range c.analysed() {
+		calls := false
+		for _, callee := range c.staticCallees(g) {
+			if callee == fn {
+				calls = true
+			}
+		}
+		if !calls {
+			continue
+		}
+		for _, path := range c.Paths("PAN-1", g) {
+			for i := range path.Events {
+				e := &path.Events[i]
+				if e.Kind != pathx.KCall || e.Callee != fn || e.Depth != 0 || pi >= len(e.Args) || qi >= len(e.Args) {
+					continue
+				}
+				sites++
+				ap, aq := e.Args[pi], e.Args[qi]
+				have := false
+				for _, cm := range assumed(path, 0, i) {
+					for _, k := range []cmp{cm, cm.swapped()} {
+						x, okx := builtinCall(k.X, "len")
+						y, oky := builtinCall(k.Y, "len")
+						if !okx || !oky || !sameValue(x, ap) || !sameValue(y, aq) {
+							continue
+						}
+						if k.Op == token.EQL || k.Op == token.GEQ || k.Op == token.GTR {
+							have = true
+						}
+					}
+				}
+				if !have {
+					return false, fmt.Sprintf("a call from %s reaches the helper without len(%s) ≥ len(%s) established", load.FuncName(g), p.Name(), q.Name())
+				}
+			}
+		}
+	}
+	if sites == 0 {
+		return false, "no call of the helper was found on any path"
+	}
+	return true, fmt.Sprintf("%s is indexed below len(%s); every one of the %d path visits of a call has established len(%s) ≥ len(%s) before the call", p.Name(), q.Name(), sites, p.Name(), q.Name())
 }
